@@ -2040,6 +2040,45 @@ class Explorer:
                 return "stop"
             return ("fork", alts)
         # ---- checked slice access: Some(..) exactly when the index / range is within the length
+        if p == "std::slice::<impl [T]>::get" and len(args) == 2 and args[1][0] == "sym":
+            # a look-up table: `TABLE.get(usize::from(kind))` on an array whose elements are known (a dispatch table of
+            # function items, a table of constants) with a symbolic index - one case per entry plus "out of range",
+            # exactly the case split the equivalent `match kind { 0 => .., 1 => .., _ => .. }` makes
+            tb = args[0]
+            for _ in range(2):
+                if tb[0] == "ref":
+                    tb = self.read_loc(st, tb[1], tb[2])
+            if tb[0] == "arr" and 0 < len(tb[1]) <= 32:
+                it_ = args[1][1]
+                while isinstance(it_, tuple) and it_ and ((it_[0] == "into" and len(it_) > 2) or (it_[0] == "cast" and len(it_) > 2 and it_[2] in ("usize", "u64", "u32", "u16"))) \
+                        and isinstance(it_[1], tuple) and it_[1] and it_[1][0] == "sym":
+                    it_ = it_[1][1]                     # lossless widening of the index: decide the value underneath
+                OPT = "std::option::Option"
+                self._cs_n = getattr(self, "_cs_n", 0) + 1
+                troot = ("CS", "table", self._cs_n)
+                alts = []
+                for i_ in range(len(tb[1]) + 1):
+                    s2 = st.clone()
+                    if i_ < len(tb[1]):
+                        if not self.constrain(s2, it_, "eq", i_):
+                            continue
+                        s2.heap[(troot, (("ci", i_),))] = tb[1][i_]
+                        val = AGG(OPT, "Some", (("ref", troot, (("ci", i_),)),))
+                    else:
+                        okn = True
+                        for j_ in range(len(tb[1])):
+                            okn = okn and self.constrain(s2, it_, "ne", j_)
+                        if not okn:
+                            continue
+                        val = AGG(OPT, "None")
+                    k2 = self.clone_stack(stack)
+                    self.write_place(s2, k2[-1], dest, val, site)
+                    if target is None:
+                        continue
+                    k2[-1].bb = target
+                    alts.append((s2, k2))
+                if alts:
+                    return ("fork", alts)
         if p in ("std::slice::<impl [T]>::first", "std::slice::<impl [T]>::get") and len(args) == (1 if p.endswith("first") else 2):
             base = args[0]
             ix = C(0, "usize") if p.endswith("first") else args[1]
@@ -2402,6 +2441,13 @@ class Explorer:
                     return "stop"
                 return ("fork", alts)
             return None
+        if p in ("std::option::Option::<&T>::copied", "std::option::Option::<&T>::cloned", "std::option::Option::<&mut T>::copied",
+                 "std::option::Option::<&mut T>::cloned") and len(args) == 1 and args[0][0] == "agg":
+            v = args[0]
+            if v[2] == "None":
+                return ret(v)
+            inner = v[3][0]
+            return ret(AGG("std::option::Option", "Some", ((self.deref(st, inner) if inner[0] == "ref" else inner),)))
         if p == "std::option::Option::<(T, U)>::unzip":
             # Some((a, b)) -> (Some(a), Some(b));  None -> (None, None)
             v = args[0]
